@@ -82,6 +82,20 @@ func c02Scenarios(tier string) []*Scenario {
 			add(tr, c, RPC{Kind: "cs", Client: []string{"S0", "C", "R*", "R"}, Handler: []string{"r*", "h:a", "s0", "t:b", "ret:ok"}})
 		}
 	}
+	// a call with larger messages first, then one with smaller ones, over a connection whose reads return
+	// whatever has arrived (several frames at once): the later call still ends with its handler's status
+	for _, tr := range []string{"http", "inproc"} {
+		for _, second := range []RPC{
+			{Kind: "ss", Client: []string{"S0", "C", "R*", "R"}, Handler: []string{"r", "s0", "ret:st:5"}},
+			{Kind: "ss", Client: []string{"S0", "C", "R*", "R"}, Handler: []string{"r", "s0", "s1", "ret:ok"}},
+			{Kind: "cs", Client: []string{"S0", "C", "R*", "R"}, Handler: []string{"r*", "s0", "t:b", "ret:st:5"}},
+		} {
+			first := RPC{Kind: "ss", Client: []string{"S0", "C", "R*"}, Handler: []string{"r", "s0", "s1", "ret:ok"}}
+			sc := &Scenario{Prop: "C02", Transport: tr, Bound: -1, Opts: "seq0q,sizes,coalesce", RPCs: []RPC{first, second}}
+			sc.Name = "plain|sizes|" + rpcName(first) + " >> " + rpcName(second)
+			out = append(out, sc)
+		}
+	}
 	// the handlers behind a middleware whose ResponseWriter has no Flush (the reply leaves when the handler returns)
 	for _, rpc := range []RPC{
 		{Kind: "unary", Client: []string{"I"}, Handler: []string{"dec", "ret:st:5"}},
